@@ -25,7 +25,7 @@ RECURSIVE RegType(_, _)
 RECURSIVE RegSeq(_, _, _)
 RegSeq(xs, st, acc) ==
   IF xs = <<>> THEN [st |-> st, xs |-> acc]
-  ELSE LET r == RegType(Head(xs), st) IN RegSeq(Tail(xs), r.st, Append(acc, r.t))
+  ELSE LET r == RegType(Head(xs), st) IN IF r = r THEN RegSeq(Tail(xs), r.st, Append(acc, r.t)) ELSE r
 RegType(t, st) ==
   IF t.k = "obj" THEN
      LET my  == ToString(st.next)
@@ -53,9 +53,9 @@ CmpOne(c, a, b, ia, ib) ==
 SimM(policy, ma, mb) == \E i \in DOMAIN policy : CmpOne(policy[i], KeysOf(ma), KeysOf(mb), ma.ix, mb.ix)
 
 \* ------------------------------------------------- groups, faithful list order
-RECURSIVE Dedup(_, _)
-Dedup(s, acc) == IF s = <<>> THEN acc
-                 ELSE Dedup(Tail(s), IF \E k \in DOMAIN acc : acc[k] = Head(s) THEN acc ELSE Append(acc, Head(s)))
+\* ordered de-duplication (first occurrences), as OrderedSet does; non-recursive so that long lists do not exhaust the stack
+Dedup(s, acc) == LET idx == SelectSeq([i \in DOMAIN s |-> i], LAMBDA i : \A j \in 1..(i - 1) : s[j] # s[i])
+                 IN acc \o [k \in DOMAIN idx |-> s[idx[k]]]
 PairSeq(n) == FlattenSeq([i \in 1..n |-> [d \in 1..(n - i) |-> <<i, i + d>>]])
 \* positions (in ms) of each initial group, in the insertion order of the models2merge dict
 InitGroups(ms, policy) ==
@@ -73,7 +73,7 @@ PassOut(groups) ==
   IN Dedup(FlattenSeq([i \in 1..n |-> row(i)]), <<>>)
 Flag(groups) == \E i, j \in DOMAIN groups : i # j /\ groups[i] \cap groups[j] # {}
 RECURSIVE Closure(_)
-Closure(groups) == IF Flag(groups) THEN Closure(PassOut(groups)) ELSE groups
+Closure(groups) == IF Flag(groups) THEN (LET g2 == PassOut(groups) IN IF g2 = g2 THEN Closure(g2) ELSE g2) ELSE groups
 
 \* ------------------------------------------------------------------ retarget
 RECURSIVE Retarget(_, _, _)
@@ -93,7 +93,9 @@ MergeGroup(st, memberIx, e) ==
       opt    == [ret EXCEPT ![Len(ret)] = [ix |-> new, t |-> Optimize(ret[Len(ret)].t, e)]]
   IN [next |-> st.next + 1, models |-> opt]
 RECURSIVE MergeGroups(_, _, _)
-MergeGroups(st, gs, e) == IF gs = <<>> THEN st ELSE MergeGroups(MergeGroup(st, Head(gs), e), Tail(gs), e)
+MergeGroups(st, gs, e) ==
+  IF gs = <<>> THEN st
+  ELSE LET r == MergeGroup(st, Head(gs), e) IN IF r = r THEN MergeGroups(r, Tail(gs), e) ELSE r
 
 MergeModels(st, policy, e) ==
   LET ms   == st.models
